@@ -221,7 +221,23 @@ pub fn run(ctx: &mut Ctx, c: &Case) -> (String, String) {
             let hs = ctx.hay.place(&h, c.num("a"), flush_of(c.num("fl")));
             let be = c.str("be").to_string();
             let op = c.op.to_string();
+            if c.num("raw") == 1 {
+                // raw-pointer forms: start = base + so, end = base + eo (so > eo is allowed: must give None / 0)
+                let (so, eo) = (c.num("so"), c.num("eo"));
+                if so > hs.len() || eo > hs.len() {
+                    return ("BadCase".to_string(), "-".to_string());
+                }
+                let sub: &[u8] = if so <= eo { &hs[so..eo] } else { &hs[so..so] };
+                let base = hs.as_ptr();
+                return record(sub, &[], || memchr_raw_op(&op, &be, &ns, base, so, eo));
+            }
             record(hs, &[], || memchr_op(&op, &be, &ns, hs))
+        }
+        "pppair" => {
+            let x = c.bytes("x");
+            let (i1, i2) = (c.num("i1") as u8, c.num("i2") as u8);
+            let isa = c.str("isa").to_string();
+            record(&[], &[], || pp_pair_op(&isa, &x, i1, i2))
         }
         // ---- C06 / C07: iterator histories
         "iter" => {
@@ -454,6 +470,70 @@ fn ident<T>(x: T) -> T {
 }
 fn unwrap_avail<T>(x: Option<T>) -> T {
     x.expect("backend not available")
+}
+
+macro_rules! arity_raw {
+    ($m:path, $op:expr, $ns:expr, $base:expr, $so:expr, $eo:expr, $new:ident, $unwrap:expr) => {{
+        use $m as be;
+        let (s, e) = unsafe { ($base.add($so), $base.add($eo)) };
+        let idx = |p: Option<*const u8>| opt(p.map(|p| p as usize - $base as usize));
+        unsafe {
+            match ($op, $ns.len()) {
+                ("find", 1) => idx($unwrap(be::One::$new($ns[0])).find_raw(s, e)),
+                ("find", 2) => idx($unwrap(be::Two::$new($ns[0], $ns[1])).find_raw(s, e)),
+                ("find", 3) => idx($unwrap(be::Three::$new($ns[0], $ns[1], $ns[2])).find_raw(s, e)),
+                ("rfind", 1) => idx($unwrap(be::One::$new($ns[0])).rfind_raw(s, e)),
+                ("rfind", 2) => idx($unwrap(be::Two::$new($ns[0], $ns[1])).rfind_raw(s, e)),
+                ("rfind", 3) => idx($unwrap(be::Three::$new($ns[0], $ns[1], $ns[2])).rfind_raw(s, e)),
+                ("count", 1) => $unwrap(be::One::$new($ns[0])).count_raw(s, e).to_string(),
+                _ => "BadCase".to_string(),
+            }
+        }
+    }};
+}
+
+pub fn memchr_raw_op(op: &str, be: &str, ns: &[u8], base: *const u8, so: usize, eo: usize) -> String {
+    match be {
+        "swar" => arity_raw!(memchr::arch::all::memchr, op, ns, base, so, eo, new, ident),
+        #[cfg(all(target_arch = "x86_64", not(any(memchr_emu = "neon", memchr_emu = "simd128"))))]
+        "sse2" => arity_raw!(memchr::arch::x86_64::sse2::memchr, op, ns, base, so, eo, new, unwrap_avail),
+        #[cfg(all(target_arch = "x86_64", not(any(memchr_emu = "neon", memchr_emu = "simd128"))))]
+        "avx2" => arity_raw!(memchr::arch::x86_64::avx2::memchr, op, ns, base, so, eo, new, unwrap_avail),
+        #[cfg(memchr_emu = "neon")]
+        "neon" => arity_raw!(memchr::arch::aarch64::neon::memchr, op, ns, base, so, eo, new, unwrap_avail),
+        #[cfg(memchr_emu = "simd128")]
+        "simd128" => arity_raw!(memchr::arch::wasm32::simd128::memchr, op, ns, base, so, eo, new, unwrap_avail),
+        _ => "BadBackend".to_string(),
+    }
+}
+
+macro_rules! pp_pair_isa {
+    ($m:path, $x:expr, $i1:expr, $i2:expr) => {{
+        use $m as pp;
+        match memchr::arch::all::packedpair::Pair::with_indices($x, $i1, $i2) {
+            None => "NoPair".to_string(),
+            Some(p) => match pp::Finder::with_pair($x, p) {
+                None => "Unavailable".to_string(),
+                Some(f) => format!("Some({},{})", f.pair().index1(), f.pair().index2()),
+            },
+        }
+    }};
+}
+
+/// `Finder::with_pair(..).pair()` of every packed-pair finder (C19: finders report the pair they were given)
+pub fn pp_pair_op(isa: &str, x: &[u8], i1: u8, i2: u8) -> String {
+    match isa {
+        "portable" => pp_pair_isa!(memchr::arch::all::packedpair, x, i1, i2),
+        #[cfg(all(target_arch = "x86_64", not(any(memchr_emu = "neon", memchr_emu = "simd128"))))]
+        "sse2" => pp_pair_isa!(memchr::arch::x86_64::sse2::packedpair, x, i1, i2),
+        #[cfg(all(target_arch = "x86_64", not(any(memchr_emu = "neon", memchr_emu = "simd128"))))]
+        "avx2" => pp_pair_isa!(memchr::arch::x86_64::avx2::packedpair, x, i1, i2),
+        #[cfg(memchr_emu = "neon")]
+        "neon" => pp_pair_isa!(memchr::arch::aarch64::neon::packedpair, x, i1, i2),
+        #[cfg(memchr_emu = "simd128")]
+        "simd128" => pp_pair_isa!(memchr::arch::wasm32::simd128::packedpair, x, i1, i2),
+        _ => "BadIsa".to_string(),
+    }
 }
 
 pub fn memchr_op(op: &str, be: &str, ns: &[u8], hs: &[u8]) -> String {
